@@ -38,11 +38,25 @@ def generate(api):
     # --- fan-out: every shard, independent of FOR
     rel = "src/command/handlers/query/dispatch/streaming.rs"
     t = api.src(rel)
-    api.grab(t, r"for shard in ctx\.shard_manager\.all_shards\(\) \{", rel, "fan-out over all shards")
+    # every shard is asked unconditionally: the loop body starts with the response channel, no
+    # guard / `continue` in front of it (also not for shards missing from a top-k zone map)
+    api.grab(t, r"for shard in ctx\.shard_manager\.all_shards\(\) \{\s*let \(response_tx, response_rx\) = oneshot::channel\(\);",
+             rel, "fan-out over all shards without a guard")
+    body = t[t.index("for shard in ctx.shard_manager.all_shards()"):t.index("let mut handles = Vec::new();")]
+    if re.search(r"\bcontinue\b|\bbreak\b", body):
+        raise api.Missing(f"{rel}: the dispatch loop skips shards (continue/break) - the model asks every shard")
     if re.search(r"get_shard\(", t):
         raise api.Missing(f"{rel}: dispatch now routes by context (get_shard) - the model sends every query to all shards")
     out.append(f"-- {rel}: QueryStream goes to all_shards(); no get_shard in the dispatcher")
     out.append("def queryFanOutAllShards : Bool := true")
+    # --- a shard absent from the zone map gets an empty zone list (its memory is still scanned)
+    rel = "src/command/handlers/shard_command_builder.rs"
+    t = api.src(rel)
+    api.grab(t, r"if let Some\(pz\) = map\.get\(&shard_id\) \{", rel, "zone map lookup per shard")
+    api.grab(t, r"\} else \{\s*// Shard has no zones[^\n]*\n\s*Cow::Owned\(Self::build_empty_picked_zones_command\(", rel, "empty picked zones for a shard absent from the map")
+    api.grab(t, r"zones: Vec::new\(\),", rel, "empty zone list")
+    out.append(f"-- {rel}: a shard absent from the zone map is sent the command with an empty zone list")
+    out.append("def absentShardGetsEmptyZoneList : Bool := true")
     # --- response writer: de-duplication on event_id
     rel = "src/command/handlers/query/streaming/response_writer.rs"
     t = api.src(rel)
